@@ -207,7 +207,7 @@ def pair(rng, twod, kind):
     def nn(lo, hi):
         return [rng.randint(lo, hi) for _ in range(dim)]
 
-    if kind in ('nested', 'offset', 'partial', 'stretched'):
+    if kind in ('nested', 'offset', 'partial', 'stretched', 'far'):
         dn = nn(3, 6) if twod else nn(2, 3)
         if kind == 'stretched':
             asp = [1.0] * dim
@@ -228,6 +228,10 @@ def pair(rng, twod, kind):
             off = [rng.uniform(0.3, 1.3) for _ in range(dim)]
         elif kind == 'partial':
             off = [rng.choice([-0.4, 0.5, 1.2]) for _ in range(dim)]
+        elif kind == 'far':
+            # beyond the scaled search spheres: candidates only after some `fuzz *= 10` retries, or never
+            off = [0.5] * dim
+            off[rng.randrange(dim)] = -rng.choice([0.9, 1.0, 1.05, 1.1, 1.15, 1.2, 1.3, 1.5, 2.5])
         else:
             shell = rng.choice(['in', 'on', 'out', 'out', 'free'])
             if shell == 'free':
@@ -243,7 +247,7 @@ def pair(rng, twod, kind):
                     s = sum(w)
                     off = [v / s * (1.0 - delta) for v in w]
         rorg = [dorg[c] + off[c] * hd[c] for c in range(dim)]
-        if kind == 'partial':
+        if kind in ('partial', 'far'):
             rsize = [dsize[c] * rng.uniform(0.5, 0.9) for c in range(dim)]
         else:
             rsize = [(dsize[c] - off[c] * hd[c]) * rng.uniform(0.35, 0.8) for c in range(dim)]
@@ -253,6 +257,13 @@ def pair(rng, twod, kind):
         else:
             r = box3(rng, rn, rorg, rsize, jitter=rng.choice([0.0, 0.2]))
         return d, r
+    if kind == 'big':
+        # many receptor vertices per rank: more than 10 agents are alive at once (the agent array grows)
+        dn, rn = ([5, 4], [9, 8]) if twod else ([2, 2, 2], [4, 3, 3])
+        size = [1.0] * dim
+        a = rng.choice([0.0, 0.07])
+        return (box(rng, dn, [0.0] * dim, size, jitter=0.2),
+                box(rng, rn, [a] * dim, [1.0 - 2 * a] * dim, jitter=rng.choice([0.0, 0.2])))
     if kind == 'same':
         dn, rn = (nn(2, 6), nn(2, 6)) if twod else (nn(1, 3), nn(1, 3))
         size = [rng.choice([1.0, 2.0, 0.5]) for _ in range(dim)]
@@ -274,19 +285,19 @@ def pair(rng, twod, kind):
         return d, r
     if kind == 'strip':
         # a long thin donor under a coarse receptor: the walk from a corner seed to a mid-side vertex needs > 215 steps
-        nx = rng.choice([120, 140])
         if twod:
+            nx = rng.choice([236, 250])
             d = box2(rng, [nx, 1], [0.0, 0.0], [nx * 0.05, 0.05], diag=rng.choice(['main', 'anti', 'random']))
             r = box2(rng, [rng.choice([2, 3]), 1], [0.0, 0.0], [nx * 0.05, 0.05])
         else:
-            nx = rng.choice([40, 45])
+            nx = rng.choice([56, 90])
             d = box3(rng, [nx, 1, 1], [0.0, 0.0, 0.0], [nx * 0.05, 0.05, 0.05])
             r = box3(rng, [2, 1, 1], [0.0, 0.0, 0.0], [nx * 0.05, 0.05, 0.05])
         return d, r
     raise ValueError(kind)
 
 
-KINDS = ['nested', 'offset', 'offset', 'offset', 'same', 'round', 'roundbox', 'stretched', 'partial', 'strip']
+KINDS = ['nested', 'offset', 'offset', 'offset', 'same', 'round', 'roundbox', 'stretched', 'partial', 'far', 'strip', 'big']
 
 
 def session(rng, np, twod, kind):
@@ -338,6 +349,9 @@ def gen_locate(rng, tier, np=None):
 
 
 # ------------------------------------------------------------------------------------------------ oracle
+SITE_NO_DONOR_CORNER = 'interp-geom-nodes-donor-without-corners'
+
+
 class OSess:
     def __init__(self, np, twod):
         self.np = np
@@ -349,6 +363,8 @@ class OSess:
         self.rown = {}
         self.gcells = None
         self.cache = {}
+        self.dgeom = 0                          # geometry nodes reported by `geomlist`, all ranks
+        self.tgeom = 0
 
     def all_cells(self):
         """unique donor cells as coordinate tuples"""
@@ -413,7 +429,16 @@ def oracle_locate(ops, impl):
             continue
         if s is None or o[0] != 'ok':
             if w[0] == 'locate' and s is not None and o[0] != 'bad-op':
-                bad.append((i, 'ref_interp_locate returned %s on a valid donor/receptor pair' % o[0]))
+                outside = [g for g, x in s.rxyz.items() if not s.in_domain(x)]
+                if outside:
+                    continue  # a receptor vertex outside the donor domain: the search may give up (fuzz limit)
+                if s.tgeom and not s.dgeom:
+                    bad.append((i, 'ref_interp_locate returned %s: the receptor has geometry nodes, the donor has none '
+                                   '(ref_interp_geom_nodes: RUS "no geom node"), every receptor vertex is inside the donor'
+                                % o[0], SITE_NO_DONOR_CORNER))
+                else:
+                    bad.append((i, 'ref_interp_locate returned %s although every receptor vertex lies in the donor domain'
+                                % o[0]))
             continue
         try:
             if w[0] == 'dnode':
@@ -425,6 +450,10 @@ def oracle_locate(ops, impl):
             elif w[0] == 'rnode':
                 s.rxyz[int(w[2])] = tuple(hf(v) for v in w[4:7])
                 s.rown[int(w[2])] = int(w[3])
+            elif w[0] == 'geomlist':
+                k = o.index('T')
+                s.dgeom += len(o[2:k])
+                s.tgeom += len(o[k + 1:])
             elif w[0] == 'locate':
                 bad += [(i, m) for m in check_locate(s, out)]
         except (ValueError, IndexError, KeyError, AssertionError) as ex:
